@@ -48,7 +48,7 @@ def collect(ctx, prop):
     with open(os.path.join(ctx.specdir(), cfg), "w") as f:
         f.write("SPECIFICATION Spec\nCONSTANTS\n  Lookups = %s\n  MaxGen = 3\n  Defects = {}\n  Record = TRUE\nVIEW View\nACTION_CONSTRAINT Emit\nINVARIANTS AtomicLookup CurrentLookup NoSharedRead\nCHECK_DEADLOCK FALSE\n"
                 % ("{1, 2}" if quick else "{1, 2, 3}"))
-    emit = ctx.path("emit.csv")
+    emit = ctx.path("emit-conc.csv")
     r0 = ctx.tlc_ok("MC_LoaderConc", cfg=cfg, env={"EMIT_FILE": emit}, workers=min(NCPU, 8), heap="8g")
     scheds = emitted_json_lines(emit)
     total = len(scheds)
@@ -80,6 +80,13 @@ def collect(ctx, prop):
                 found.append({"key": "%s:gate:%s" % (prop, m.group(4)), "what": "schedule %s: %s" % (m.group(2), m.group(4)),
                               "replay": {"kind": "concgate", "scenario": byid.get(m.group(2), {})}})
     # (c) race sensor
+    if prop != "C15":
+        # other properties (C16: lookups begun after a reload) only use the gated schedules
+        cov = {"states": ctx.tlc_distinct, "transitions": ctx.tlc_states, "traces_validated_against_impl": len(S), "evaluations": len(S),
+               "distinct_nontrivial": cnt.get("overlapped", 0),
+               "rule": "gate part: one evaluation = one TLC schedule of {build, filters, spawn i, q1 i, q2 i, q3 i} replayed on the real loader (%d of %d schedules), followed by one lookup per address that meets no reload" % (len(S), total),
+               "samples": [S[-1]["steps"]], "oracle_counts": cnt, "model_divergences": divs, "events": st["events"], "exhaustive": False}
+        return cov, ["the loader's verif gate hooks (l.build, l.q1..q3) park the real goroutines where the schedule says"], found
     stress = [stress_scenario(rng, tag, i, quick) for i in range(2 if quick else 6)]
     ssf = ctx.path("stress.ndjson")
     with open(ssf, "w") as f:
